@@ -326,3 +326,23 @@ package analysis
 //@   loop an.Types.1 visited done
 //@   loop an.Types.1 invariant tableOK(an)
 //@   loop an.Types.1 invariant forall t types.Type :: done[t] && is(an.Types[t], *Struct) ==> ghost("implementsSet", an.Types[t]) == 1
+
+
+// ---------------------------------------------------------------- C09
+
+// encoding/json field rules (transcribed from its documentation): the key is the name part of the json tag
+// (before the first comma) when that part is not empty, else the Go field name; a field is omitted when it
+// is unexported or when its json tag is exactly "-".
+//@ pred jsonNamePart(st StructField) string = strings.Cut(st.Tag.Get("json"), ",")
+
+//@ func StructField.JSONName
+//@   props C09
+//@   pure
+//@   requires st.Field != nil
+//@   ensures result == ite(jsonNamePart(st) != "", jsonNamePart(st), st.Field.Name())
+
+//@ func StructField.Exported
+//@   props C09
+//@   pure
+//@   requires st.Field != nil
+//@   ensures result <==> (st.Field.Exported() && st.Tag.Get("json") != "-" && st.Tag.Get("gomacro") != "ignore")
